@@ -126,8 +126,8 @@ def no_write_reachable(prog, rep):
                     break
     root = prog.func("query", "aw_query.query2")
     reach, pred = reachable(edges, [root])
-    rep.floor("direct writers found", len(dw), 20)
-    rep.floor("functions reachable from query()", len(reach), 60)
+    rep.floor("direct writers found", len(dw), 14)
+    rep.floor("functions reachable from query()", len(reach), 45)
     must_reach = ["Bucket.get", "Bucket.get_eventcount", "SqliteStorage.get_events", "PeeweeStorage.get_events", "MemoryStorage.get_events", "q2_query_bucket", "q2_function.h.g", "q2_typecheck.g", "flood", "QFunction.interpret"]
     for m in must_reach:
         if not any(f.short == m for f in reach):
